@@ -81,6 +81,7 @@ type c18Run struct {
 	closedAt   int
 	closeStart int
 	faultStart int // seq number at which the file fault (op X) began, 0: none
+	zeros      [][2]uint64 // absolute [from,to) ranges written with zero bytes (op Z)
 	maxW       uint64
 	peek       bool // read the write position from the store (only when executions are serialised)
 	tmp        *os.File
@@ -133,6 +134,16 @@ func (run *c18Run) cleanup() {
 	}
 }
 
+// expect: the byte written at absolute offset off
+func (run *c18Run) expect(off uint64) byte {
+	for _, z := range run.zeros {
+		if off >= z[0] && off < z[1] {
+			return 0
+		}
+	}
+	return c18Byte(off)
+}
+
 func c18Atoi(s string) uint64 {
 	var n uint64
 	for _, c := range s {
@@ -164,11 +175,16 @@ func (run *c18Run) do(thread int, op string) {
 	run.seq++
 	e.Start = run.seq
 	switch op[0] {
-	case 'W':
+	case 'W', 'Z':
+		// W: the position-derived pattern (never a zero byte); Z: k zero bytes (sparse values, padding)
 		k := int(c18Atoi(op[1:]))
 		b := make([]byte, k)
-		for i := range b {
-			b[i] = c18Byte(run.wpos + uint64(i))
+		if op[0] == 'W' {
+			for i := range b {
+				b[i] = c18Byte(run.wpos + uint64(i))
+			}
+		} else {
+			run.zeros = append(run.zeros, [2]uint64{run.wpos, run.wpos + uint64(k)})
 		}
 		n, err := run.bl.Write(b)
 		run.wpos += uint64(n)
@@ -276,7 +292,7 @@ func (run *c18Run) judge() (string, string) {
 		// after the file fault a read or write may fail with the I/O error (never with wrong bytes)
 		ioFault := run.sc.File && run.faultStart != 0 && e.End > run.faultStart && strings.HasPrefix(e.Err, "other:")
 		switch e.Op[0] {
-		case 'W':
+		case 'W', 'Z':
 			k := int(c18Atoi(e.Op[1:]))
 			if afterClose {
 				if e.Err == "" && k > 0 {
@@ -313,7 +329,7 @@ func (run *c18Run) judge() (string, string) {
 					return "read-beyond-write", fmt.Sprintf("%s at offset %d returned %d bytes but only %d were ever written", e.Op, e.Off, e.N, e.WposEnd)
 				}
 				for i := 0; i < e.N; i++ {
-					if e.Data[i] != c18Byte(e.Off+uint64(i)) {
+					if e.Data[i] != run.expect(e.Off+uint64(i)) {
 						return "wrong-bytes", fmt.Sprintf("%s at offset %d: byte %d is not the byte written at offset %d (write position %d..%d, capacity %d)", e.Op, e.Off, i, e.Off+uint64(i), e.WposStart, e.WposEnd, capn)
 					}
 				}
@@ -724,6 +740,39 @@ func c18Seq() {
 		ev.StatesAdd(n)
 		ev.NontrivialAdd(n)
 		ev.Count(fmt.Sprintf("sequential_words_cap%d_file%v_base%d_traceoff%v", real, cfg.file, cfg.base, cfg.traceOff), n)
+	}
+	// runs of zero bytes written over the previous lap's data (both backends, quick tier too)
+	if si, _ := ev.ShardInfo(); si == 0 {
+		var n int64
+		for _, cfg := range []struct {
+			capn int
+			file bool
+		}{{BuffSizeAlign, false}, {3 * BuffSizeAlign, false}, {FileSizeAlign, true}, {3 * FileSizeAlign, true}} {
+			real := uint64(align(cfg.capn, BuffSizeAlign))
+			if cfg.file {
+				real = uint64(align(cfg.capn, FileSizeAlign))
+			}
+			f := func(format string, a ...interface{}) string { return fmt.Sprintf(format, a...) }
+			for _, word := range [][]string{
+				{f("W%d", real), "Z8192", f("A4096@%d", real), f("A4096@%d", real+4096), f("A4096@%d", real+4095), "D"},
+				{f("W%d", real-100), "Z4296", f("A100@%d", real-100), f("A4096@%d", real), f("A200@%d", real+4000)},
+				{f("W%d", real), "Z4095", "Z4096", "Z4097", f("A4095@%d", real), f("A4096@%d", real+4095), f("A4097@%d", real+8191), "N", "Z1", "r1"},
+				{f("W%d", real+5), f("Z%d", real), f("A4096@%d", real+5), f("A4096@%d", 2*real-4096+5), "W3", f("A3@%d", 2*real+5)},
+			} {
+				if why := c18SeqWord(cfg.capn, cfg.file, 0, word); why != "" {
+					kind := strings.SplitN(strings.SplitN(why, ": ", 3)[1], ":", 2)[0]
+					ev.Violate("C18|zero-runs|"+kind, fmt.Sprintf("backlog of capacity %d (file=%v), operations %v (Z<k> writes k zero bytes): %s", real, cfg.file, word, why),
+						c18Replay{Sub: "seq", Scenario: c18Scenario{Cap: cfg.capn, File: cfg.file}, Word: append([]string{}, word...)})
+				}
+				n++
+			}
+		}
+		ev.Eval(n)
+		ev.Trace(n)
+		ev.Trans(n * 6)
+		ev.StatesAdd(n)
+		ev.NontrivialAdd(n)
+		ev.Count("zero_run_words", n)
 	}
 	ev.Sample("sequential", []string{"W4095", "N", "W2", "A4097@1", "S1", "r1", "D"})
 }
